@@ -41,7 +41,11 @@ def plan(tier, seed):
 
 
 def _ival(v):
-    return v.value if isinstance(v, enum.Enum) else v
+    if isinstance(v, enum.Enum):
+        return v.value
+    if type(v).__module__ == "numpy":
+        return v.item()
+    return v
 
 
 class Model:
@@ -667,6 +671,17 @@ def random_full(res, T, rng, n):
         rng.shuffle(names)
         by = {o.name: o for o in t.options}
         assign = [(nm, rng.choice(_all_values(by[nm]))) for nm in names]
+        if rng.random() < 0.3:
+            # numbers as other libraries hand them over: numpy integer scalars of any width (not `int` subclasses), for the
+            # multi-bit options; numpy booleans for the flags
+            try:
+                import numpy as _np
+                kinds = (_np.uint8, _np.int16, _np.int32, _np.int64, _np.uint16)
+                assign = [(nm, (rng.choice(kinds)(v) if by[nm].size > 1 and not isinstance(v, enum.Enum) and 0 <= int(v) < 128 else
+                                (_np.bool_(v) if by[nm].size == 1 and rng.random() < 0.5 else v))) for nm, v in assign]
+                res.count("assignments_with_numpy_scalars")
+            except ImportError:
+                pass
         # sometimes assign some options twice
         for _k in range(rng.randint(0, 3)):
             nm = rng.choice(names)
